@@ -123,11 +123,17 @@ class Worker:
     def exec(self, src, timeout=20.0, **kw):
         """Runs a script; returns the response dict. Deaths and hangs come back as
         {'outcome': 'died', 'kind': ...} / {'outcome': 'hang'}"""
+        retry_hang = kw.pop("retry_hang", True)
         req = {"op": "exec", "src": src}
         req.update(kw)
-        try:
-            return self.call(req, timeout)
-        except WorkerDied as e:
-            return {"outcome": "died", "kind": e.kind, "detail": e.detail}
-        except WorkerHang:
-            return {"outcome": "hang"}
+        for attempt in ((0, 1) if retry_hang else (1,)):
+            try:
+                return self.call(req, timeout)
+            except WorkerDied as e:
+                return {"outcome": "died", "kind": e.kind, "detail": e.detail}
+            except WorkerHang:
+                # a stall of the whole worker process (loaded machine) looks like a hang of the script: only a script that
+                # does not answer twice in a row, on a fresh worker, is reported as hanging
+                if attempt == 1:
+                    return {"outcome": "hang"}
+                self.hang_retries = getattr(self, "hang_retries", 0) + 1
